@@ -1,6 +1,7 @@
 package main
 
 import (
+	"os"
 	"fmt"
 	"go/ast"
 	"go/constant"
@@ -254,6 +255,10 @@ func (e *SpecEnv) local(name string) (SVal, bool) {
 			}
 		}
 	}
+	// the value the variable was last given on this path (assignment, merge point, loop cut)
+	if nv, ok := e.fr.named[name]; ok && os.Getenv("GOVC_NO_NAMED") == "" {
+		return SVal{nv.t, nv.ty}, true
+	}
 	for _, b := range fn.Blocks {
 		for _, in := range b.Instrs {
 			switch x := in.(type) {
@@ -284,6 +289,18 @@ func (e *SpecEnv) local(name string) (SVal, bool) {
 		if fv.Name() == name && i < len(e.fr.bindings) {
 			T := elemType(fv.Type())
 			return SVal{e.st.load(e.fr.bindings[i], sortOf(T)), T}, true
+		}
+	}
+	// a variable whose only references lie ahead on this path (x := map literal): the value those references name
+	for _, b := range fn.Blocks {
+		for _, in := range b.Instrs {
+			if d, ok := in.(*ssa.DebugRef); ok && !d.IsAddr {
+				if obj, _ := d.Object().(*types.Var); obj != nil && !obj.IsField() && obj.Name() == name {
+					if t, ok := e.st.env[d.X]; ok {
+						return SVal{t, d.X.Type()}, true
+					}
+				}
+			}
 		}
 	}
 	// named values by SSA register name ("t12")
@@ -385,6 +402,17 @@ func (e *SpecEnv) resolveType(x ast.Expr) types.Type {
 	case *ast.StarExpr:
 		if T := e.resolveType(t.X); T != nil {
 			return types.NewPointer(T)
+		}
+	case *ast.ArrayType:
+		if t.Len == nil {
+			if T := e.resolveType(t.Elt); T != nil {
+				return types.NewSlice(T)
+			}
+		}
+	case *ast.MapType:
+		K, V := e.resolveType(t.Key), e.resolveType(t.Value)
+		if K != nil && V != nil {
+			return types.NewMap(K, V)
 		}
 	}
 	return nil
@@ -774,6 +802,9 @@ func (e *SpecEnv) callExpr(n *ast.CallExpr) SVal {
 			var cell *Sort
 			if _, isMap := T.Underlying().(*types.Map); isMap {
 				cell = mapSortOf(T)
+			} else if sl, isSlice := T.Underlying().(*types.Slice); isSlice {
+				// heap([]T): the arrays that slices of T live in
+				cell = ArraySort(SInt, sortOf(sl.Elem()))
 			} else {
 				cell = sortOf(T)
 			}
@@ -820,6 +851,26 @@ func (e *SpecEnv) callExpr(n *ast.CallExpr) SVal {
 			}
 			ghostReads++
 			return SVal{Select(e.st.getHeap(sortOf(T)), ref), T}
+		case "rangeseen", "rangekey":
+			// the innermost running iteration over a map of unknown contents: rangeseen(k) - key k has been
+			// handed out (the current one included); rangekey() - the key of the current iteration
+			var it *iterInfo
+			for rg, x := range e.st.iters {
+				if x.visited != nil && e.fr != nil && rg.Parent() == e.fr.fn && (it == nil || x.seq > it.seq) {
+					it = x
+				}
+			}
+			if it == nil {
+				e.fail(n, "%s: no iteration over a map of unknown contents is running", id.Name)
+			}
+			if id.Name == "rangekey" {
+				if it.curKey == nil {
+					e.fail(n, "rangekey: no current key here")
+				}
+				return SVal{it.curKey, nil}
+			}
+			a := e.eval(n.Args[0])
+			return SVal{Select(it.visited, a.T), tyBool}
 		case "valid":
 			// valid(x): x's Go type invariants (unsigned ranges etc.)
 			a := e.eval(n.Args[0])
